@@ -8,7 +8,10 @@ import vlib, astgen, mmlgen, midinotes
 
 COQ_TARGET = "props/C03.v"
 THEOREMS = ["C03_defaults", "C03_tuplet_count", "C03_exec", "C03_exec_tokens", "C03_exec_from", "C03_initial", "C03_notes",
-            "C03_run_source", "C03_step_note", "C03_octave_once"]
+            "C03_run_source", "C03_step_note", "C03_octave_once",
+            "C03_transp_exact", "C03_transpose", "C03_transpose_sem", "C03_transpose_at", "C03_transpose_track_key",
+            "C03_transpose_at_exec", "C03_transpose_track_key_exec", "C03_sem_fuel",
+            "C03_transpose_octave", "C03_transpose_octave_exec"]
 RULE = ("programs of the core note language generated as syntax trees (nesting depth <= 3, 2..30 commands, several tracks), "
         "parameter values inside and beyond their documented ranges; plus free-form core programs for the correspondence; "
         "non-trivial = distinct program sounding at least 3 notes")
